@@ -462,6 +462,12 @@ SEEDS = {
         detected_by={"C30": "forward_saves_input_state_n2: the state saved for the backward pass is the state the step started from (fork over needs_input_grad added)"},
         strengthened="MISSED at first: the forward case set every needs_input_grad flag. It now forks over nine flag combinations",
     ),
+    "C32c": dict(
+        property="C32",
+        change="minimize_bandwidth_impl starts the accumulated permutation from the identity instead of the starting shuffle: right for the shuffled matrix, wrong for the input matrix",
+        needs="a random restart (non-identity start) that strictly beats the identity start",
+        detected_by={"C32": "impl_n1to2: the loop's matrix = original permuted by the returned permutation"},
+    ),
     "C33c": dict(
         property="C33",
         change="the Krylov-tolerance floor caps the replacement factor at 1.0: for precision < 1e-12 the effective tolerance equals the precision, below the floor",
